@@ -68,6 +68,9 @@ func tvMenu(names ...string) []tvForm {
 	return out
 }
 
+// an unrelated statement planted where a pattern has a statement wildcard
+const tvMarkerStmt = "gsxSnk = 12345"
+
 var tvVariadicMenu = []string{"", "s", `"n", false, "u"`, `"n", 0, "u"`, `"n", "v", "u"`, `"%d", i`}
 
 const tvPreludeDecls = `
@@ -220,7 +223,7 @@ func tvInstantiate(r *irRule, ridx int, pat string, quick bool) []*tvCand {
 	})
 	nNamed := 0
 	for _, s := range slots {
-		if !s.variadic {
+		if !s.variadic && !regexp.MustCompile("\x00"+regexp.QuoteMeta(s.name)+"\x00\\(").MatchString(tmpl) {
 			nNamed++
 		}
 	}
@@ -248,14 +251,27 @@ func tvInstantiate(r *irRule, ridx int, pat string, quick bool) []*tvCand {
 	if _, err := parser.ParseExpr(strings.NewReplacer("\x00", "").Replace(strings.ReplaceAll(tmpl, "\x00", "x"))); err != nil || strings.Contains(pat, ";") {
 		kind = "stmts"
 	}
-	// builtins named in call position -> namesake environments
-	envs := []string{"real"}
-	for name := range tvNamesakes {
-		if regexp.MustCompile(`(^|[^\w.$])` + name + `\(`).MatchString(pat) {
-			envs = append(envs, "shadow:"+name)
-		}
+	// a metavariable in callee position ranges over the builtins (rules constrain such a
+	// variable by text and object kind)
+	callee := map[string]bool{}
+	for _, mm := range regexp.MustCompile("\x00(\\w+)\x00\\(").FindAllStringSubmatch(tmpl, -1) {
+		callee[mm[1]] = true
 	}
-	sort.Strings(envs)
+	var builtinNames []string
+	for name := range tvNamesakes {
+		builtinNames = append(builtinNames, name)
+	}
+	sort.Strings(builtinNames)
+	// builtins named in call position -> namesake environments (decided per instantiated code)
+	envsOf := func(code string) []string {
+		envs := []string{"real"}
+		for _, name := range builtinNames {
+			if regexp.MustCompile(`(^|[^\w.$])` + name + `\(`).MatchString(code) {
+				envs = append(envs, "shadow:"+name)
+			}
+		}
+		return envs
+	}
 	var out []*tvCand
 	choice := make([]string, len(slots))
 	var rec func(k int)
@@ -286,7 +302,7 @@ func tvInstantiate(r *irRule, ridx int, pat string, quick bool) []*tvCand {
 			c = regexp.MustCompile(`\{\s*;`).ReplaceAllString(c, "{")
 			c = regexp.MustCompile(`;\s*;`).ReplaceAllString(c, ";")
 			c = regexp.MustCompile(`;\s*\}`).ReplaceAllString(c, " }")
-			for _, env := range envs {
+			for _, env := range envsOf(c) {
 				cand := &tvCand{Rule: r, RuleIdx: ridx, Pattern: pat, Env: env, Bind: bind, Kind: kind, Code: c}
 				var body string
 				if kind == "expr" {
@@ -301,8 +317,23 @@ func tvInstantiate(r *irRule, ridx int, pat string, quick bool) []*tvCand {
 			return
 		}
 		if slots[k].variadic {
+			// a statement-position wildcard ($*_ between ';' / braces) is a run of unrelated statements
+			if regexp.MustCompile("(^|[;{])\\s*\x00" + regexp.QuoteMeta(slots[k].name) + "\x00\\s*([;}]|$)").MatchString(tmpl) {
+				for _, v := range []string{"", tvMarkerStmt} {
+					choice[k] = v
+					rec(k + 1)
+				}
+				return
+			}
 			for _, v := range tvVariadicMenu {
 				choice[k] = v
+				rec(k + 1)
+			}
+			return
+		}
+		if callee[slots[k].name] {
+			for _, name := range append(append([]string{}, builtinNames...), "fi") {
+				choice[k] = name
 				rec(k + 1)
 			}
 			return
@@ -384,8 +415,16 @@ func tvClaimsOf(prop string, r *irRule) []tvClaim {
 			out = append(out, tvClaim{Kind: "welltyped"})
 		}
 	case "C20":
-		for name := range tvNamesakes {
-			for _, p := range r.Patterns {
+		for _, p := range r.Patterns {
+			// a callee metavariable that the filter pins to a builtin's spelling, or a builtin named literally
+			for _, mm := range regexp.MustCompile(`\$(\w+)\(`).FindAllStringSubmatch(p, -1) {
+				for name := range tvNamesakes {
+					if strings.Contains(r.Where.Src, fmt.Sprintf(`m["%s"].Text == "%s"`, mm[1], name)) {
+						return []tvClaim{{Kind: "api"}}
+					}
+				}
+			}
+			for name := range tvNamesakes {
 				if regexp.MustCompile(`(^|[^\w.$])` + name + `\(`).MatchString(p) {
 					return []tvClaim{{Kind: "api"}}
 				}
@@ -754,7 +793,7 @@ func gsxReset() {
 	gsxSnk = nil
 }
 
-func gsxRun(f func()) (out string) {
+func gsxRun(gsxFn func()) (out string) {
 	gsxReset()
 	gsxSetup()
 	defer func() {
@@ -762,7 +801,7 @@ func gsxRun(f func()) (out string) {
 		state := fmt.Sprintf("i=%v j=%v u8=%v s=%q s2=%q ns=%q b=%q b2=%q nb=%q xs=%v nxs=%v arr=%v m=%v nm=%v f=%v ok=%v st=%v t=%v", i, j, u8, s, s2, ns, b, b2, nb, xs, nxs, arr, m, nm, f, ok, st, t.UnixNano())
 		out = fmt.Sprintf("panic=%v result=%#v calls=%v state{%s}", r != nil, gsxSnk, gsxTrace[:gsxTraceN&31], state)
 	}()
-	f()
+	gsxFn()
 	return
 }
 
@@ -1191,6 +1230,9 @@ func tvJudge(prop string, c *tvCand, w tvWarning, rules []irRule, st *tvStats) [
 			if !regexp.MustCompile(`(^|[^\w.])` + name + `\(`).MatchString(c.Code) {
 				continue
 			}
+			if !strings.Contains(rule.Where.Src, `.Text == "`+name+`"`) && !regexp.MustCompile(`(^|[^\w.$])`+name+`\(`).MatchString(c.Pattern) {
+				continue // the rule's subject is not this builtin
+			}
 			// the flagged call: the user's function returns an arbitrary stream element, the builtin a function of its operand
 			sh := newSemShared()
 			a, errA := tvEvalSide(sh, c.Src)
@@ -1409,6 +1451,9 @@ func tvWellTyped(c *tvCand, sugg string) *tvFinding {
 		if _, err := parser.ParseFile(token.NewFileSet(), "", "package p\nfunc _() {\n"+sugg+"\n}\n", 0); err != nil {
 			return mk("unparsable", "the suggested code does not parse as a statement list: "+err.Error())
 		}
+	}
+	if n := strings.Count(c.Code, tvMarkerStmt); n > 0 && strings.Count(sugg, tvMarkerStmt) < n {
+		return mk("deletes-statement", "applying the fix deletes an unrelated statement (`"+tvMarkerStmt+"`) that merely sits between the statements the diagnostic is about")
 	}
 	fixed := tvReimport(c.Src[:c.Off]+sugg+c.Src[end:], c.Env)
 	_, f0, info0, _, err0 := tvLoad(c.Src)
